@@ -197,6 +197,8 @@ func runC07(c *Ctx, tier string) {
 		}
 	}
 
+	// D6
+	runSummarizeSiblingGuards(c, "C07-D6")
 	// D2
 	runLegsGetCopies(c, "C07-D2")
 	// D3
@@ -536,4 +538,104 @@ func init() {
 	register(&PropertyDef{ID: "C08", Run: runC08,
 		Explanation: "Decides structural conditions of parallelism independence: lock discipline of the lister/slicer shared by scatter legs (L1/L2/L4), per-leg copies (D2), partials pairing (D3), confirmed operator tables (D5), merge key = path's output key and Combine only without order (M1). Does NOT decide equality of results across parallelism or correctness of partial aggregates.",
 		Assumptions: []string{"one receiver per method for lock identity"}})
+}
+
+// runSummarizeSiblingGuards: C07-D6.  Two places decide that a group-by can rely on its input order:
+// isKeyOfSummarize (used by concurrentPath to keep the scan ordered: slicer, ordered merge) and the
+// Summarize arm of propagateSortKeyOp (which sets Summarize.InputSortDir so the operator releases
+// groups as soon as the key advances).  They must apply the same predicate, otherwise the operator
+// streams over an input the planner did not keep ordered.
+func runSummarizeSiblingGuards(c *Ctx, rule string) {
+	p := c.P
+	c.Rule(rule, "sibling agreement on `input order is usable by this summarize`: both isKeyOfSummarize's `return true` and the store to Summarize.InputSortDir are reachable only when a group-by key is *named* as the sort key (Equal(fieldOf(LHS), key)) and its expression is the key or an order-preserving call (Equal(fieldOf(RHS), key) or orderPreservingCall)")
+	type site struct {
+		fn     *ssa.Function
+		target ssa.Instruction
+		name   string
+	}
+	var sites []site
+	if fn := p.Func("compiler/optimizer.isKeyOfSummarize"); fn != nil {
+		for _, b := range fn.Blocks {
+			for _, in := range b.Instrs {
+				if r, ok := in.(*ssa.Return); ok {
+					if k, ok := r.Results[0].(*ssa.Const); ok && k.Value != nil && k.Value.String() == "true" {
+						sites = append(sites, site{fn, r, "isKeyOfSummarize returns true"})
+					}
+				}
+			}
+		}
+	}
+	for _, fs := range fieldStores(p, "InputSortDir") {
+		if p.PkgOf(fs.fn) == "compiler/optimizer" && fs.strukt == "compiler/ast/dag.Summarize" {
+			if k, ok := fs.store.Val.(*ssa.Const); ok && k.Value != nil && k.Int64() == 0 {
+				continue
+			}
+			sites = append(sites, site{fs.fn, fs.store, fnName(fs.fn) + " sets Summarize.InputSortDir"})
+		}
+	}
+	if len(sites) < 2 {
+		c.Undecided(rule, "summarize order guards", "fewer than the 2 known decision sites found")
+		return
+	}
+	fromField := func(v ssa.Value, f string) bool {
+		return dependsOn(v, func(w ssa.Value) bool {
+			call, ok := w.(*ssa.Call)
+			if !ok || calleeName(call.Common()) != "compiler/optimizer.fieldOf" {
+				return false
+			}
+			return dependsOn(call.Call.Args[0], func(x ssa.Value) bool { return isFieldOf(x, "compiler/ast/dag.Assignment", f) })
+		})
+	}
+	for _, s := range sites {
+		var lhsEq, rhsAlt []*ssa.Call
+		for _, ci := range allCalls(s.fn) {
+			call, ok := ci.(*ssa.Call)
+			if !ok {
+				continue
+			}
+			switch calleeName(ci.Common()) {
+			case "(pkg/field.Path).Equal":
+				if fromField(call.Call.Args[0], "LHS") || fromField(call.Call.Args[1], "LHS") {
+					if !(fromField(call.Call.Args[0], "RHS") || fromField(call.Call.Args[1], "RHS")) {
+						lhsEq = append(lhsEq, call)
+					}
+				}
+				if fromField(call.Call.Args[0], "RHS") || fromField(call.Call.Args[1], "RHS") {
+					rhsAlt = append(rhsAlt, call)
+				}
+			case "compiler/optimizer.orderPreservingCall":
+				rhsAlt = append(rhsAlt, call)
+			}
+		}
+		named := false
+		for _, l := range lhsEq {
+			if trueEdgeDominatesOrSelf(l, s.target.Block()) {
+				named = true
+			}
+		}
+		// without the true edges of the RHS alternatives the target must be unreachable
+		isAlt := func(v ssa.Value) bool {
+			for _, a := range rhsAlt {
+				if ssa.Value(a) == v {
+					return true
+				}
+			}
+			return false
+		}
+		exprOK := len(rhsAlt) > 0 && reachAvoidingEdges(s.fn, nil, func(ssa.Instruction) bool { return false }, func(x ssa.Instruction) bool { return x == s.target },
+			func(a, b *ssa.BasicBlock) bool {
+				if iff, ok := a.Instrs[len(a.Instrs)-1].(*ssa.If); ok && isAlt(iff.Cond) && b == a.Succs[0] {
+					return false
+				}
+				return true
+			}) == nil
+		switch {
+		case !named:
+			c.Fail(rule, s.name, s.target.Pos(), "this decision no longer requires that the group-by key is assigned to the sort key's own name (Equal(fieldOf(k.LHS), key)), while its sibling does: e.g. `count() by k:=ts` is planned as order-not-required (no slicer, unordered combine) yet the summarize is told its input is sorted and releases groups early — the same group is emitted several times with partial counts")
+		case !exprOK:
+			c.Fail(rule, s.name, s.target.Pos(), "this decision can be reached without the key expression being the sort key or an order-preserving call of it")
+		default:
+			c.OK(rule, s.name, s.target.Pos(), "requires LHS named as the sort key and RHS = key or order-preserving call")
+		}
+	}
 }
